@@ -14,6 +14,11 @@ partitura/io/importmidi.py (load_performance_midi, adjust_time), partitura/io/__
     the result is compared with the model (Model/C06.load: ticks exact, seconds 1e-9) and with a
     direct Python oracle (pairing by definition, integration of the tempo step function ordered
     by tick with exact rationals, id order).
+(a) also covers performances with a history (items carrying stale tick annotations; performances
+    loaded, sliced, moved in time by the library itself) and numpy scalar types.
+(d) Performance(...) renumbers tracks (Model/C06_perf.sanitize); (e) load_performance against
+    load_performance_midi, first_note_at_zero (Model/C06_perf.rs_notes / rs_times); (f) the conversion
+    functions called directly.
 """
 import json
 import math
@@ -25,11 +30,12 @@ from fractions import Fraction as F
 import core
 from core import cz, cq, clist, ctuple, cbool
 
-EXPECT_MIN = 19
+EXPECT_MIN = 33
 PAIRS = [(480, 500000), (96, 600000), (1000, 333333), (1, 10 ** 6), (4, 250000), (384, 250000), (960, 1000000)]
 KEYNAMES = ["Cb", "Gb", "Db", "Ab", "Eb", "Bb", "F", "C", "G", "D", "A", "E", "B", "F#", "C#",
             "Abm", "Ebm", "Bbm", "Fm", "Cm", "Gm", "Dm", "Am", "Em", "Bm", "F#m", "C#m", "G#m", "D#m", "A#m"]
 TEMPI = [500000, 600000, 250000, 333333, 1000000, 750000]
+BPMS = [100, 60, 200, 125, 96, 80, 240, 50, 75, 150, 62.5, 37.5]
 REL = F(1, 10 ** 9)
 
 
@@ -143,6 +149,13 @@ def c_track(track, intern):
 # (a) generated performances
 
 
+def edge_keys(rng):
+    """neighbouring channels and the ends of the pitch range: (channel, pitch) pairs that only a key made of both
+    numbers in full keeps apart (channel c pitch 127 / channel c+1 pitch 0, pitches 100 or 28 apart, ...)"""
+    c = rng.randint(0, 14)
+    return [c, c + 1], rng.sample([0, 127, 1, 126], 2) + rng.sample([100, 28, 27, 99, 64], 2)
+
+
 def gen_perf(rng):
     ppq, mpq = rng.choice(PAIRS) if rng.random() < 0.85 else (rng.randint(1, 2000), rng.randint(1000, 2 * 10 ** 6))
     kind = rng.choice(["perf", "perf", "list", "list", "pp"])
@@ -169,6 +182,8 @@ def gen_perf(rng):
         pool = rng.choice([[0], [0], [0, 1], [1], [0, 2], [3, 5], [0, 1, 2]])
         chans = rng.sample(range(16), rng.choice([1, 2, 3]))
         pitches = rng.sample(range(128), rng.choice([1, 2, 4, 8]))
+        if rng.random() < 0.3:
+            chans, pitches = edge_keys(rng)
         notes = []
         for i in range(rng.choice([1, 1, 2, 3, 5, 8, 12])):
             on = time()
@@ -193,21 +208,229 @@ def gen_perf(rng):
             d["name" if ty == "track_name" else "text"] = "m%d" % rng.randint(0, 5)
             metas.append(d)
         parts.append(dict(notes=notes, ctrls=ctrls, progs=progs, keys=keys, tsigs=tsigs, metas=metas))
-    return dict(ppq=ppq, mpq=mpq, kind=kind, ms=ms, ml=ml, parts=parts, file=rng.random() < 0.12,
+    case = dict(ppq=ppq, mpq=mpq, kind=kind, ms=ms, ml=ml, parts=parts, file=rng.random() < 0.12,
                 via_load_performance=rng.random() < 0.5, again=rng.random() < 0.3)
+    # the scalar types of the items: Python numbers, or what numpy code hands over -- single precision times and
+    # 32-bit integers (the dtypes of partitura's performance note arrays; half of these cases build the notes with
+    # PerformedPart.from_note_array), or numpy doubles / 64-bit integers
+    case["num"] = rng.choice(["py"] * 7 + ["f4", "f4", "f8"])
+    if case["file"] and rng.random() < 0.4:
+        case["file"] = "object"
+    case["single"] = rng.random() < 0.5  # a Performance of one part is given the part itself, not a list
+    if case["num"] == "f4":
+        import numpy as np
+
+        case["na"] = rng.random() < 0.5
+        for part in parts:
+            for n in part["notes"]:
+                if rng.random() < 0.5:  # longer performances: single precision has 24 bits
+                    n["note_off"] += 1000.0 - n["note_on"] % 1000.0 + n["note_on"]
+                    n["note_on"] = n["note_off"] - rng.random() * 3
+                a = np.float32(n["note_on"])
+                d = np.float32(max(np.float32(n["note_off"]) - a, 0))
+                n["note_on"], n["note_off"] = float(a), float(np.float32(a + d))
+            for name in ("ctrls", "progs", "keys", "tsigs", "metas"):
+                for x in part[name]:
+                    x["time"] = float(np.float32(x["time"] * rng.choice([1, 1, 100])))
+    if rng.random() < 0.35:
+        annotate_ticks(rng, case)
+    return case
+
+
+def annotate_ticks(rng, case):
+    """History in the data (class c1): the items of a performed part that was loaded from a MIDI file (or sliced)
+    carry their position in ticks (note_on_tick / note_off_tick / time_tick) next to the times in seconds, in
+    the resolution the part carries (PerformedPart.ppq / .mpq).  The annotation is either the nearest tick of
+    the time in that resolution, or stale (times were edited after loading, the file had another tempo):
+    C06 speaks of the times in seconds only."""
+    case["history"] = "annotated"
+    for part in case["parts"]:
+        r = rng.random()
+        if r < 0.55:
+            part["ppq"], part["mpq"] = case["ppq"], case["mpq"]  # the part's resolution is the export's
+        elif r < 0.8:
+            pass  # PerformedPart defaults (480, 500000)
+        else:
+            part["ppq"], part["mpq"] = rng.choice(PAIRS)
+        pq, mq = part.get("ppq", 480), part.get("mpq", 500000)
+        mode = rng.choice(["consistent", "offset", "scaled", "random", "random"])
+        p_item = rng.choice([0.5, 1, 1])
+        off = rng.choice([1, 7, 480])
+        fac = rng.choice([F(6, 5), F(1, 2), F(2)])
+
+        def tick(t):
+            k = rhe(F(10 ** 6) * pq * F(t) / mq)
+            if mode == "consistent":
+                return k
+            if mode == "offset":
+                return k + off
+            if mode == "scaled":
+                return rhe(k * fac)
+            return rng.randint(0, 5000)
+
+        for n in part["notes"]:
+            if rng.random() < p_item:
+                a = tick(n["note_on"])
+                b = tick(n["note_off"])
+                n["note_on_tick"], n["note_off_tick"] = a, max(a, b)
+        for name in ("ctrls", "progs", "keys", "tsigs", "metas"):
+            for x in part[name]:
+                if rng.random() < p_item:
+                    x["time_tick"] = tick(x["time"])
+
+
+def stale_at_export_resolution(case):
+    """some item carries a tick annotation that is not a nearest tick of its time although its part has the
+    resolution of the exported file"""
+    for part in case["parts"]:
+        if (part.get("ppq", 480), part.get("mpq", 500000)) != (case["ppq"], case["mpq"]):
+            continue
+        for n in part["notes"]:
+            for a, b in (("note_on", "note_on_tick"), ("note_off", "note_off_tick")):
+                if b in n and n[b] not in tick_cands(case["ppq"], case["mpq"], n[a]):
+                    return True
+        for name in ("ctrls", "progs", "keys", "tsigs", "metas"):
+            for x in part[name]:
+                if "time_tick" in x and x["time_tick"] not in tick_cands(case["ppq"], case["mpq"], x["time"]):
+                    return True
+    return False
+
+
+def perf_to_parts(pps):
+    """the items of loaded / processed PerformedPart objects as a case's parts: every key the items carry that
+    C06 names, plus the tick annotations and the resolution of the part"""
+    parts = []
+    for pp in pps:
+        notes = []
+        for n in pp.notes:
+            d = dict(midi_pitch=int(n["midi_pitch"]), note_on=float(n["note_on"]), note_off=float(n["note_off"]),
+                     velocity=int(n["velocity"]), channel=int(n["channel"]), track=int(n["track"]))
+            for k in ("note_on_tick", "note_off_tick"):
+                if n.get(k) is not None:
+                    d[k] = int(n[k])
+            notes.append(d)
+
+        def tt(x, d):
+            if x.get("time_tick") is not None:
+                d["time_tick"] = int(x["time_tick"])
+            return d
+
+        ctrls = [tt(c, dict(number=int(c["number"]), value=int(c["value"]), time=float(c["time"]), channel=int(c["channel"]), track=int(c["track"])))
+                 for c in pp.controls]
+        progs = [tt(c, dict(program=int(c["program"]), time=float(c["time"]), channel=int(c["channel"]), track=int(c["track"]))) for c in pp.programs]
+        keys = [tt(c, dict(time=float(c["time"]), fifths=int(c["fifths"]), mode=str(c["mode"]), key_name=str(c.get("key_name", "")), track=int(c["track"])))
+                for c in pp.key_signatures]
+        tsigs = [tt(c, dict(time=float(c["time"]), beats=int(c["beats"]), beat_type=int(c["beat_type"]), track=int(c["track"]))) for c in pp.time_signatures]
+        metas = []
+        for m in pp.meta_other:
+            if m.get("type") == "end_of_track":
+                continue
+            d = {k: (v if isinstance(v, (int, str)) else float(v)) for k, v in m.items() if k not in ("time", "time_tick", "track")}
+            metas.append(tt(m, dict(d, time=float(m["time"]), track=int(m["track"]))))
+        part = dict(notes=notes, ctrls=ctrls, progs=progs, keys=keys, tsigs=tsigs, metas=metas)
+        if getattr(pp, "ppq", None) is not None and getattr(pp, "mpq", None) is not None:
+            part["ppq"], part["mpq"] = int(pp.ppq), int(pp.mpq)
+        part["ptrack"] = int(getattr(pp, "track", 0) or 0)
+        parts.append(part)
+    return parts
+
+
+def gen_history(rng, workdir):
+    """History by the library itself (class c2): a generated MIDI file (any tempo map) is loaded with
+    load_performance_midi / load_performance (with or without silence removal), the result possibly moved in
+    time, stretched or sliced, and then handed to the exporter -- most of the time with the ppq / mpq the loaded
+    parts carry.  -> case (its parts hold the items as they are at that moment) or None"""
+    import partitura
+    from partitura.io.importmidi import load_performance_midi
+    from partitura.utils.music import slice_ppart_by_time
+
+    src = gen_midi(rng)
+    if rng.random() < 0.5:  # one tempo for the whole file, not the default one
+        m = rng.choice([600000, 250000, 400000, 750000, 1000000, 480000])
+        src["tracks"] = [[(d, s) for d, s in tr if s[0] != "tempo"] for tr in src["tracks"]]
+        src["tracks"][0].insert(0, (0, ("tempo", m)))
+    how = rng.choice(["midi", "midi", "midi", "silence", "slice"])
+    try:
+        if how == "silence":
+            path = os.path.join(workdir, "hist.mid")
+            build_midi(src).save(path)
+            perf = partitura.load_performance(path, default_bpm=src["bpm"], merge_tracks=src["merge"], first_note_at_zero=True)
+        else:
+            perf = load_performance_midi(build_midi(src), default_bpm=src["bpm"], merge_tracks=src["merge"])
+        pps = list(perf.performedparts)
+        if how == "slice":
+            a = rng.choice([0, 0.25, 0.5, 1.0])
+            pps = [slice_ppart_by_time(pp, a, a + rng.choice([1.0, 4.0, 100.0]), clip_note_off=rng.random() < 0.5) for pp in pps]
+    except Exception:
+        return None
+    parts = [p for p in perf_to_parts(pps) if p["notes"]]
+    if not parts:
+        return None
+    edit = rng.choice(["none", "none", "shift", "shift", "stretch"])
+    if edit != "none":
+        d = rng.choice([1.0, 0.5, 2.25, 10.0])
+        f = rng.choice([0.5, 2.0, 1.25])
+        for part in parts:
+            for n in part["notes"]:
+                for k in ("note_on", "note_off"):
+                    n[k] = n[k] + d if edit == "shift" else n[k] * f
+            for name in ("ctrls", "progs", "keys", "tsigs", "metas"):
+                for x in part[name]:
+                    x["time"] = x["time"] + d if edit == "shift" else x["time"] * f
+    if "ppq" in parts[0] and rng.random() < 0.65:
+        ppq, mpq = parts[0]["ppq"], parts[0]["mpq"]
+    else:
+        ppq, mpq = rng.choice(PAIRS)
+    kind = rng.choice(["perf", "perf", "list", "list", "pp"])
+    if kind == "pp":
+        parts = parts[:1]
+    case = dict(ppq=ppq, mpq=mpq, kind=kind, ms=rng.random() < 0.25, ml=rng.random() < 0.25, parts=parts, file=rng.random() < 0.1,
+                via_load_performance=rng.random() < 0.5, again=rng.random() < 0.2, history="%s,%s" % (how, edit))
+    # a time that is a near-tie of the rounding cannot be compared: leave the item out
+    for part in case["parts"]:
+        part["notes"] = [n for n in part["notes"] if tick_exact(ppq, mpq, n["note_on"])[1] and tick_exact(ppq, mpq, n["note_off"])[1]]
+        for name in ("ctrls", "progs", "keys", "tsigs", "metas"):
+            part[name] = [x for x in part[name] if tick_exact(ppq, mpq, x["time"])[1]]
+    case["parts"] = [p for p in case["parts"] if p["notes"]]
+    if not case["parts"]:
+        return None
+    return case
 
 
 def build_parts(case):
     import partitura.performance as P
 
+    import numpy as np
+
+    num = case.get("num", "py")
+    FT = {"py": lambda v: v, "f4": np.float32, "f8": np.float64}[num]
+    IT = {"py": lambda v: v, "f4": np.int32, "f8": np.int64}[num]
+
+    def conv(d):
+        return {k: (FT(v) if k in ("time", "note_on", "note_off") else IT(v) if isinstance(v, int) and not isinstance(v, bool) else v)
+                for k, v in d.items()}
+
     pps = []
     for part in case["parts"]:
-        notes = [dict(n, id="x%d" % i) for i, n in enumerate(part["notes"])]
-        pps.append(P.PerformedPart(notes, controls=[dict(c) for c in part["ctrls"]], programs=[dict(p) for p in part["progs"]],
-                                   key_signatures=[dict(k) for k in part["keys"]], time_signatures=[dict(t) for t in part["tsigs"]],
-                                   meta_other=[dict(m) for m in part["metas"]]))
+        kw = {k: part[k] for k in ("ppq", "mpq") if k in part}
+        if "ptrack" in part:
+            kw["track"] = part["ptrack"]
+        items = dict(controls=[conv(c) for c in part["ctrls"]], programs=[conv(p) for p in part["progs"]],
+                     key_signatures=[conv(k) for k in part["keys"]], time_signatures=[conv(t) for t in part["tsigs"]],
+                     meta_other=[dict(m, time=FT(m["time"])) for m in part["metas"]])
+        if case.get("na"):
+            na = np.array([(n["note_on"], np.float32(n["note_off"]) - np.float32(n["note_on"]), n["midi_pitch"], n["velocity"], n["track"], n["channel"], "x%d" % i)
+                           for i, n in enumerate(part["notes"])],
+                          dtype=[("onset_sec", "f4"), ("duration_sec", "f4"), ("pitch", "i4"), ("velocity", "i4"), ("track", "i4"), ("channel", "i4"), ("id", "U256")])
+            pp = P.PerformedPart.from_note_array(na)
+            for k, v in list(items.items()) + list(kw.items()):
+                setattr(pp, k, v)
+            pps.append(pp)
+        else:
+            notes = [dict(conv(n), id="x%d" % i) for i, n in enumerate(part["notes"])]
+            pps.append(P.PerformedPart(notes, **items, **kw))
     if case["kind"] == "perf":
-        perf = P.Performance(pps)
+        perf = P.Performance(pps[0] if len(pps) == 1 and case.get("single") else pps)
         # Performance renumbers the tracks of notes, controls and programs only; keep every signature /
         # meta event on a (renumbered) track of a note of its part
         for pp in pps:
@@ -520,7 +743,16 @@ def run_perf_case(case, workdir=None):
         src = mf
         if case.get("file") and workdir:
             path = os.path.join(workdir, "rt.mid")
-            save_performance_midi(inp, path, mpq=case["mpq"], ppq=case["ppq"], merge_tracks_save=case["ms"])
+            if case.get("file") == "object":  # a file-like object instead of a file name
+                import io
+                buf = io.BytesIO()
+                r = save_performance_midi(inp, buf, mpq=case["mpq"], ppq=case["ppq"], merge_tracks_save=case["ms"])
+                with open(path, "wb") as f:
+                    f.write(buf.getvalue())
+            else:
+                r = save_performance_midi(inp, path, mpq=case["mpq"], ppq=case["ppq"], merge_tracks_save=case["ms"])
+            if r is not None:
+                return ["save_performance_midi(out=<file>) returned %r instead of None" % (r,)], None
             src = path
         if src is not mf and case.get("via_load_performance"):
             perf = partitura.load_performance(src, merge_tracks=case["ml"])
@@ -568,6 +800,8 @@ def gen_midi(rng):
     merge = rng.random() < 0.3
     chans = rng.sample(range(16), 2)
     pitches = rng.sample(range(128), 4)
+    if rng.random() < 0.35:
+        chans, pitches = edge_keys(rng)
     keys = [(c, p) for c in chans for p in pitches]
     tracks = []
     tempo_mode = rng.choice(["none", "first", "any", "any", "any", "later_only"])
@@ -605,7 +839,13 @@ def gen_midi(rng):
             elif r < 0.88:
                 evs.append((d, ("tsig", rng.randint(1, 12), rng.choice([1, 2, 4, 8, 16]))))
             elif r < 0.94:
-                evs.append((d, ("text", rng.choice(["text", "marker", "lyrics"]), "t%d" % rng.randint(0, 3))))
+                if rng.random() < 0.6:
+                    evs.append((d, ("text", rng.choice(["text", "marker", "lyrics"]), "t%d" % rng.randint(0, 3))))
+                else:  # other kinds of meta events, with other attributes
+                    ty, field, val = rng.choice([("track_name", "name", "n%d" % rng.randint(0, 3)), ("instrument_name", "name", "i%d" % rng.randint(0, 3)),
+                                                 ("midi_port", "port", rng.randint(0, 15)), ("channel_prefix", "channel", rng.randint(0, 15)),
+                                                 ("sequence_number", "number", rng.randint(0, 1000)), ("copyright", "text", "c")])
+                    evs.append((d, ("meta", ty, field, val)))
             else:
                 evs.append((d, ("bend", rng.choice(chans), rng.randint(-100, 100))))
         for k in sorted(sounding):
@@ -614,7 +854,13 @@ def gen_midi(rng):
         if rng.random() < 0.5:
             evs.append((0, ("eot",)))
         tracks.append(evs)
-    return dict(ppq=ppq, merge=merge, tracks=tracks)
+    # the tempo in force before the first set_tempo: default_bpm (values whose microseconds per quarter are whole)
+    bpm = rng.choice([120] * 6 + BPMS)
+    return dict(ppq=ppq, merge=merge, tracks=tracks, bpm=bpm)
+
+
+def default_mpq(case):
+    return F(60 * 10 ** 6) / F(case.get("bpm", 120))
 
 
 def build_midi(case):
@@ -642,6 +888,8 @@ def build_midi(case):
                 tr.append(mido.MetaMessage("time_signature", numerator=s[1], denominator=s[2], time=d))
             elif k == "text":
                 tr.append(mido.MetaMessage(s[1], text=s[2], time=d))
+            elif k == "meta":
+                tr.append(mido.MetaMessage(s[1], time=d, **{s[2]: s[3]}))
             elif k == "bend":
                 tr.append(mido.Message("pitchwheel", channel=s[1], pitch=s[2], time=d))
             elif k == "eot":
@@ -664,7 +912,7 @@ def oracle_midi(case, obs):
             out.append((t, i, j, tuple(s)))
         tracks.append(out)
     tempi = sorted([(t, i, j, s[1]) for tr in tracks for (t, i, j, s) in tr if s[0] == "tempo"])
-    steps = [(0, 500000)] + [(t, m) for t, _, _, m in tempi]
+    steps = [(0, default_mpq(case))] + [(t, m) for t, _, _, m in tempi]
 
     def sec(tick):
         total = F(0)
@@ -697,7 +945,8 @@ def oracle_midi(case, obs):
             exp_parts.append(dict(file_track=i, notes=sorted(notes), ctrls=sorted(ctrls), progs=sorted(progs),
                                   keys=sorted((t, KEYNAMES[s[1]]) for (t, _, _, s) in evs if s[0] == "key"),
                                   tsigs=sorted((t, s[1], s[2]) for (t, _, _, s) in evs if s[0] == "tsig"),
-                                  metas=sorted((t, s[1], s[2]) for (t, _, _, s) in evs if s[0] == "text")))
+                                  metas=sorted([(t, s[1], "text", str(s[2])) for (t, _, _, s) in evs if s[0] == "text"]
+                                               + [(t, s[1], s[2], str(s[3])) for (t, _, _, s) in evs if s[0] == "meta"])))
     if len(exp_parts) != len(obs):
         return ["%d performed parts loaded, the file has %d tracks with notes, controls or programs (tracks %s)"
                 % (len(obs), len(exp_parts), [p["file_track"] for p in exp_parts])]
@@ -723,7 +972,7 @@ def oracle_midi(case, obs):
             bad.append("track %d: key signatures differ" % e["file_track"])
         if sorted((c["tick"], c["beats"], c["beat_type"]) for c in o["tsigs"]) != e["tsigs"]:
             bad.append("track %d: time signatures differ" % e["file_track"])
-        if sorted((m["tick"], m["type"], dict(m["key"]).get("text")) for m in o["metas"] if m["type"] != "end_of_track") != e["metas"]:
+        if sorted((m["tick"], m["type"]) + tuple(x for kv in m["key"] if kv[0] != "type" for x in kv) for m in o["metas"] if m["type"] != "end_of_track") != e["metas"]:
             bad.append("track %d: other meta events differ" % e["file_track"])
     # track numbers: one per part (everything read from one file track carries the same number, parts differ)
     nums = [sorted({x["track"] for name in ("notes", "ctrls", "progs") for x in o[name]}) for o in obs]
@@ -737,7 +986,7 @@ def run_midi_case(case):
 
     mf = build_midi(case)
     try:
-        perf = load_performance_midi(mf, merge_tracks=case["merge"])
+        perf = load_performance_midi(mf, default_bpm=case.get("bpm", 120), merge_tracks=case["merge"])
     except Exception as e:
         return ["load_performance_midi raised %s: %s" % (type(e).__name__, e)], None
     obs = observe_perf(perf)
@@ -761,7 +1010,249 @@ def term_load(case, mf, obs, intern):
         metas = clist([ctuple([cz(m["tick"]), c_meta(m)]) for m in p["metas"]])
         parts.append(ctuple([notes, ctrls, progs, keys, tsigs, metas]))
     tracks = clist([c_track(t, intern) for t in mf.tracks])
-    return ctuple([cz(case["ppq"]), cz(500000), cbool(case["merge"]), tracks, clist(parts)])
+    return ctuple([cz(case["ppq"]), cz(int(default_mpq(case))), cbool(case["merge"]), tracks, clist(parts)])
+
+
+# ----------------------------------------------------------------------------
+# (d) Performance(...) renumbers the tracks (sanitize_track_numbers)
+
+
+def gen_sanitize(rng):
+    """1-4 parts; track numbers shared between parts, non-contiguous, large; controls / programs on tracks
+    without notes and without a track at all (counted as track -1 by the renumbering)"""
+    parts = []
+    for _ in range(rng.choice([1, 2, 2, 3, 4])):
+        pool = rng.choice([[0], [0, 1], [1], [0, 2], [3, 5], [0, 1, 2], [7, 0], [127, 2, 10]])
+        other = pool + [rng.randint(0, 20), None, None]
+        parts.append(dict(notes=[rng.choice(pool) for _ in range(rng.choice([0, 1, 2, 4]))],
+                          ctrls=[rng.choice(other) for _ in range(rng.choice([0, 0, 1, 3]))],
+                          progs=[rng.choice(other) for _ in range(rng.choice([0, 0, 1, 2]))]))
+    if not any(p["notes"] or p["ctrls"] or p["progs"] for p in parts):
+        parts[0]["notes"] = [0]
+    return dict(parts=parts, twice=rng.random() < 0.5)
+
+
+def run_sanitize_case(case):
+    """-> (failures, (original numbers, observed numbers) per part)"""
+    import partitura.performance as P
+
+    def opt(d, tr):
+        if tr is not None:
+            d["track"] = tr
+        return d
+
+    pps = []
+    for part in case["parts"]:
+        notes = [dict(id="x%d" % i, midi_pitch=60 + i % 12, note_on=float(i), note_off=float(i) + 0.5, velocity=64, channel=0, track=tr)
+                 for i, tr in enumerate(part["notes"])]
+        pps.append(P.PerformedPart(notes, controls=[opt(dict(number=64, value=i, time=0.0, channel=0), tr) for i, tr in enumerate(part["ctrls"])],
+                                   programs=[opt(dict(program=i, time=0.0, channel=0), tr) for i, tr in enumerate(part["progs"])]))
+    try:
+        perf = P.Performance(pps)
+        if case.get("twice"):
+            perf = P.Performance(list(perf.performedparts))
+    except Exception as e:
+        return ["Performance(...) raised %s: %s" % (type(e).__name__, e)], None
+    orig = [(list(p["notes"]), [-1 if t is None else t for t in p["ctrls"]], [-1 if t is None else t for t in p["progs"]]) for p in case["parts"]]
+    try:
+        obs = [([int(n["track"]) for n in pp.notes], [int(c["track"]) for c in pp.controls], [int(c["track"]) for c in pp.programs])
+               for pp in perf.performedparts]
+    except Exception as e:
+        return ["an item has no track number after Performance(...): %s: %s" % (type(e).__name__, e)], None
+    bad = []
+    if [tuple(len(x) for x in o) for o in obs] != [tuple(len(x) for x in o) for o in orig]:
+        return ["Performance(...) changed the number of parts / notes / controls / programs"], None
+    # a control / program without a track number: C06 does not say which track it belongs to; it is left out
+    num = {}
+    for k, (o, n) in enumerate(zip(orig, obs)):
+        for a, b in zip(o, n):
+            for t, u in zip(a, b):
+                if t != -1:
+                    num.setdefault((k, t), set()).add(u)
+    split = {str(g): sorted(v) for g, v in sorted(num.items()) if len(v) != 1}
+    if split:
+        bad.append("Performance(...) gave the notes / controls / programs of one (part, track) different track numbers: %s" % split)
+    else:
+        vals = [min(v) for v in num.values()]
+        if len(set(vals)) != len(vals):
+            bad.append("Performance(...) gave two (part, track) pairs the same track number: %s" % {str(g): min(v) for g, v in sorted(num.items())})
+    keep = [tuple([j for j, t in enumerate(a) if t != -1] for a in o) for o in orig]
+    sub = lambda parts: [tuple([a[j] for j in js] for a, js in zip(o, ks)) for o, ks in zip(parts, keep)]
+    return bad, (orig, obs, sub(orig), sub(obs))
+
+
+def c_ptracks(parts):
+    return clist([ctuple([clist([cz(t) for t in n]), clist([cz(t) for t in c]), clist([cz(t) for t in g])]) for n, c, g in parts])
+
+
+# ----------------------------------------------------------------------------
+# (e) load_performance: format dispatch, options handed on, first_note_at_zero
+
+
+def gen_dispatch(rng):
+    case = gen_midi(rng)
+    case["fz"] = rng.random() < 0.6
+    if case["fz"] and rng.random() < 0.7:  # silence in front of the first note of every track
+        d = rng.choice([1, 240, 1000, 5000])
+        case["tracks"] = [[(d, ("text", "text", "lead-in"))] + list(tr) for tr in case["tracks"]]
+    return case
+
+
+def run_dispatch_case(case, workdir):
+    """load_performance(file, ...) against load_performance_midi(file, ...) -> (failures, extra for Coq)"""
+    import partitura
+    from partitura.io.importmidi import load_performance_midi
+
+    path = os.path.join(workdir, "dispatch.mid")
+    build_midi(case).save(path)
+    kw = dict(default_bpm=case.get("bpm", 120), merge_tracks=case["merge"])
+    try:
+        ref = load_performance_midi(path, **kw)
+    except Exception as e:
+        return ["load_performance_midi(file) raised %s: %s" % (type(e).__name__, e)], None
+    A = observe_perf(ref)
+    # the file on disk holds what the MidiFile object holds (mido's writer / reader in between)
+    bad = ["file: " + b for b in oracle_midi(case, A)]
+    try:
+        got = partitura.load_performance(path, first_note_at_zero=case["fz"], **kw)
+    except Exception as e:
+        return bad + ["load_performance(file, first_note_at_zero=%s) raised %s: %s" % (case["fz"], type(e).__name__, e)], None
+    if not case["fz"] or not A or not A[0]["notes"]:
+        try:
+            B = observe_perf(got)
+        except Exception as e:
+            B = "%s: %s" % (type(e).__name__, e)
+        if B != A:
+            bad.append("load_performance(file, default_bpm=%s, merge_tracks=%s) differs from load_performance_midi with the same options"
+                       % (kw["default_bpm"], kw["merge_tracks"]))
+        return bad, None
+    # first_note_at_zero: the first part is moved so that its earliest onset is 0
+    try:
+        p0 = got.performedparts[0]
+        notes = [(int(n["midi_pitch"]), int(n["velocity"]), int(n["channel"]), int(n["track"]), float(n["note_on"]), float(n["note_off"])) for n in p0.notes]
+        progs = [(int(x["program"]), int(x["channel"]), int(x["track"]), float(x["time"])) for x in p0.programs]
+        ctrls = [(int(x["number"]), int(x["value"]), int(x["channel"]), int(x["track"]), float(x["time"])) for x in p0.controls]
+        others = type("Parts", (), {})()
+        others.performedparts = list(got.performedparts)[1:]
+        rest_parts = canon(observe_perf(others))
+    except Exception as e:
+        return bad + ["the performance cannot be read after first_note_at_zero: %s: %s" % (type(e).__name__, e)], None
+    a0 = A[0]
+    start = min(F(n["on"]) for n in a0["notes"])
+
+    def close(x, y):
+        return abs(F(x) - y) <= REL * max(1, abs(y))
+
+    want = sorted((n["pitch"], n["vel"], n["ch"], n["track"], F(n["on"]) - start, F(n["off"]) - start) for n in a0["notes"])
+    have = sorted(notes)
+    if len(want) != len(have) or any(w[:4] != h[:4] or not close(h[4], w[4]) or not close(h[5], w[5]) for w, h in zip(want, have)):
+        bad.append("first_note_at_zero: notes (pitch, velocity, channel, track, on, off) %s; expected the loaded notes moved by the earliest onset %s s: %s"
+                   % (have[:3], float(start), [w[:4] + (float(w[4]), float(w[5])) for w in want][:3]))
+    elif min(h[4] for h in have) != 0:
+        bad.append("first_note_at_zero: the earliest onset is %r, not 0" % min(h[4] for h in have))
+    wantp = sorted((x["program"], x["ch"], x["track"], max(F(x["t"]) - start, 0)) for x in a0["progs"])
+    havep = sorted(progs)
+    if len(wantp) != len(havep) or any(w[:3] != h[:3] or not close(h[3], w[3]) for w, h in zip(wantp, havep)):
+        bad.append("first_note_at_zero: program changes %s; expected %s" % (havep[:3], [w[:3] + (float(w[3]),) for w in wantp][:3]))
+    # controls: every control not before the first onset keeps number, channel, track and moves with the notes; its value is
+    # kept when no other control of its (track, channel, number) shares its time (they are re-sampled per controller)
+    cnt = {}
+    for x in a0["ctrls"]:
+        key = (x["track"], x["ch"], x["number"], x["t"])
+        cnt[key] = cnt.get(key, 0) + 1
+    rest = list(ctrls)
+    for x in a0["ctrls"]:
+        if F(x["t"]) < start:
+            continue
+        uniq = cnt[(x["track"], x["ch"], x["number"], x["t"])] == 1
+        hit = [c for c in rest if c[0] == x["number"] and c[2] == x["ch"] and c[3] == x["track"] and close(c[4], F(x["t"]) - start)
+               and (c[1] == x["value"] or not uniq)]
+        if not hit:
+            bad.append("first_note_at_zero: control (number %d, value %d, channel %d, track %d) at %r s not found at %r s"
+                       % (x["number"], x["value"], x["ch"], x["track"], x["t"], float(F(x["t"]) - start)))
+            break
+        rest.remove(hit[0])
+    else:
+        if any(c[4] != 0 for c in rest):
+            bad.append("first_note_at_zero: additional controls not at time 0: %s" % [c for c in rest if c[4] != 0][:3])
+    if rest_parts != canon(A[1:]):
+        bad.append("first_note_at_zero changed a part other than the first")
+    extra = None
+    if [h[:4] for h in notes] == [(n["pitch"], n["vel"], n["ch"], n["track"]) for n in a0["notes"]] and len(progs) == len(a0["progs"]):
+        extra = ([(n["on"], n["off"]) for n in a0["notes"]], [x["t"] for x in a0["progs"]], [(h[4], h[5]) for h in notes], [h[3] for h in progs])
+    return bad, extra
+
+
+# ----------------------------------------------------------------------------
+# (f) the conversions themselves: seconds_to_midi_ticks, midi_ticks_to_seconds, adjust_time
+
+
+def run_converters(rng, n):
+    """-> (failures [(text, replay)], conv terms, adjust terms)"""
+    import numpy as np
+    from partitura.utils.music import seconds_to_midi_ticks, midi_ticks_to_seconds
+    from partitura.io.importmidi import adjust_time
+
+    bad, conv, adj = [], [], []
+    for i in range(n):
+        ppq, mpq = rng.choice(PAIRS) if rng.random() < 0.7 else (rng.randint(1, 2000), rng.randint(1000, 2 * 10 ** 6))
+        r = rng.random()
+        if r < 0.4:
+            t = rng.randint(0, 30 * 128) / 128.0
+        elif r < 0.6:
+            den = F(mpq, 10 ** 6 * ppq).denominator
+            t = (rng.randint(0, 2000) + rng.choice([0, 0.5, 0.25])) * mpq / (1e6 * ppq) if den & (den - 1) == 0 else rng.randint(0, 999) / 8.0
+        else:
+            t = rng.random() * rng.choice([1, 100, 5000])
+        kind = rng.choice(["float", "float", "f4", "f8", "array4", "array8", "int"])
+        if kind in ("f4", "array4"):
+            t = float(np.float32(t))
+        if kind == "int":
+            t = float(int(t))
+        want, comparable = tick_exact(ppq, mpq, t)
+        k = rng.choice([0, 1, rng.randint(0, 10 ** 4), rng.randint(0, 10 ** 7)])
+        kkind = rng.choice(["int", "i4", "i8", "array4", "array8"])
+        rep = dict(kind="conv", ppq=ppq, mpq=mpq, t=t, tkind=kind, k=k, kkind=kkind)
+        if comparable:
+            arg = {"float": t, "f4": np.float32(t), "f8": np.float64(t), "int": int(t),
+                   "array4": np.array([t, 0.0], dtype="f4"), "array8": np.array([t, 0.0], dtype="f8")}[kind]
+            karg = {"int": k, "i4": np.int32(k), "i8": np.int64(k), "array4": np.array([k, 0], dtype="i4"), "array8": np.array([k, 0], dtype="i8")}[kkind]
+            try:
+                got = seconds_to_midi_ticks(arg, mpq=mpq, ppq=ppq)
+                got = int(got[0]) if kind.startswith("array") else int(got)
+                sec = midi_ticks_to_seconds(karg, mpq=mpq, ppq=ppq)
+                sec = float(sec[0]) if kkind.startswith("array") else float(sec)
+            except Exception as e:
+                bad.append(("seconds_to_midi_ticks / midi_ticks_to_seconds raised %s: %s" % (type(e).__name__, e), rep))
+                continue
+            if got not in tick_cands(ppq, mpq, t):
+                bad.append(("seconds_to_midi_ticks(%r as %s, mpq=%d, ppq=%d) = %d, the nearest tick is %d" % (t, kind, mpq, ppq, got, want), rep))
+            exact = F(k) * mpq / (10 ** 6 * ppq)
+            if abs(F(sec) - exact) > REL * max(1, exact):
+                bad.append(("midi_ticks_to_seconds(%d as %s, mpq=%d, ppq=%d) = %r, expected %r" % (k, kkind, mpq, ppq, sec, float(exact)), rep))
+            if got == want:  # an exact half may be rounded either way; the model's rule 0 is half to even
+                conv.append(ctuple([cz(ppq), cz(mpq), core.cfloat_q(t), cz(got), cz(k), core.cfloat_q(sec)]))
+        # adjust_time on a tick-ordered tempo list (equal ticks, repeated values)
+        tc = [(0, rng.choice(TEMPI))]
+        for _ in range(rng.choice([0, 1, 2, 5])):
+            tc.append((tc[-1][0] + rng.choice([0, 0, 1, 60, 480, 5000]), rng.choice(TEMPI) if rng.random() < 0.8 else rng.randint(1, 3000000)))
+        ticks = [rng.choice([0, tc[-1][0], rng.choice(tc)[0], rng.randint(0, 20000)]) for _ in range(3)]
+        rep = dict(kind="adjust", ppq=ppq, tc=tc, ticks=ticks)
+        try:
+            obs = [(tk, float(adjust_time(tk, list(tc), ppq))) for tk in ticks]
+        except Exception as e:
+            bad.append(("adjust_time raised %s: %s" % (type(e).__name__, e), rep))
+            continue
+        for tk, o in obs:
+            total = F(0)
+            for j, (t0, m) in enumerate(tc):
+                nxt = tc[j + 1][0] if j + 1 < len(tc) else None
+                if tk > t0:
+                    total += F((tk if nxt is None else min(tk, nxt)) - t0) * m / (10 ** 6 * ppq)
+            if abs(F(o) - total) > REL * max(1, total):
+                bad.append(("adjust_time(%d, %s, %d) = %r; the integral of the tempo steps is %r" % (tk, tc, ppq, o, float(total)), dict(rep, ticks=[tk])))
+        adj.append(ctuple([cz(ppq), clist([ctuple([cz(a), cz(b)]) for a, b in tc]), clist([ctuple([cz(a), core.cfloat_q(b)]) for a, b in obs])]))
+    return bad, conv, adj
 
 
 # ----------------------------------------------------------------------------
@@ -782,6 +1273,17 @@ def corpus_perf():
         for ms in (False, True):
             out.append(dict(ppq=480, mpq=500000, kind=kind, ms=ms, ml=False, parts=[json.loads(json.dumps(part)), json.loads(json.dumps(part2))][: (1 if kind == "pp" else 2)],
                             file=(kind == "list"), via_load_performance=True, again=True))
+    # a control carrying a stale tick in a part that has the resolution of the export (seed d): times are the seconds
+    stale = dict(notes=[dict(N(38, 19.2265625, 19.2265625, ch=14, v=7), note_on_tick=30012, note_off_tick=30012)],
+                 ctrls=[dict(number=125, value=6, time=5.9375, channel=14, track=0, time_tick=9600)], progs=[dict(program=3, time=0.5, channel=14, track=0, time_tick=0)],
+                 keys=[], tsigs=[], metas=[], ppq=384, mpq=250000)
+    for kind in ("pp", "perf"):
+        out.append(dict(ppq=384, mpq=250000, kind=kind, ms=False, ml=False, parts=[json.loads(json.dumps(stale))], file=False, via_load_performance=False,
+                        again=False, history="annotated"))
+    # single precision times (fixed by 4dbb168): 10**6 * 355 * float32(6.75) / 944335 is 2537.5018 in double, 2537.5 in single precision
+    f4 = dict(notes=[N(75, 1.125, 5.875, ch=1, v=34)], ctrls=[dict(number=7, value=100, time=6.75, channel=1, track=0)], progs=[], keys=[],
+              tsigs=[dict(time=6.75, beats=3, beat_type=1, track=0)], metas=[])
+    out.append(dict(ppq=355, mpq=944335, kind="list", ms=False, ml=False, parts=[f4], file=False, via_load_performance=False, again=False, num="f4", na=True))
     return out
 
 
@@ -798,16 +1300,26 @@ def corpus_midi():
 def run(ctx):
     warnings.filterwarnings("ignore")
     ctx.rule = ("(a) performances: 1-3 parts x 1-12 notes (times on 1/128, 1/16, 1/8, 1/1000 s grids, exact .0/.25/.5 tick positions, random floats; "
-                "zero-length notes; velocities 1..127; channels 0..15; track pools incl. non-contiguous numbers and numbers shared between parts), "
+                "zero-length notes; velocities 1..127; channels 0..15, 30% neighbouring channels with pitches at the ends of the range; track pools incl. "
+                "non-contiguous numbers and numbers shared between parts), "
                 "0-9 controls of any number/value, 0-2 programs (so both explicit programs and default insertion; programs also on tracks without notes), "
-                "key/time signatures, text-like meta events; input kind Performance/list/PerformedPart; merge_tracks_save and merge_tracks each 30%; "
-                "ppq/mpq from 7 pairs or random; 12% through a real file (half of them through load_performance); 30% with a second leg (the loaded "
-                "Performance saved and loaded once more, must come back unchanged).  Notes that would overlap or touch "
-                "another note of the same (file track, channel, pitch) at tick resolution are dropped (proviso of C06).  (b) MIDI files: 1-4 tracks x 0-20 "
-                "events, ppq from 7 values, set_tempo events in no / the first / any / only later tracks incl. repeated values and equal ticks, "
-                "zero-velocity note-ons, stray note-offs, unclosed notes, notes touching at one tick, pitch bends, end_of_track present or not, "
-                "merge_tracks 30%.  Non-trivial = (a) a case with >= 2 notes or a merge; (b) a file with a tempo change in a track other than the first "
-                "or >= 2 tempo changes.")
+                "key/time signatures, text-like meta events; input kind Performance (of a list or of the single part) / list / PerformedPart; merge_tracks_save "
+                "and merge_tracks each 30%; ppq/mpq from 7 pairs or random; 12% through a real file (40% of them written to a file-like object, half read through "
+                "load_performance); 30% with a second leg (the loaded Performance saved and loaded once more, must come back unchanged); scalar types: Python "
+                "numbers 70%, numpy float32 / int32 20% (half of them with the notes built by PerformedPart.from_note_array, half of the notes beyond 1000 s), "
+                "numpy float64 / int64 10%.  History: 35% of the generated cases carry tick annotations (note_on_tick / note_off_tick / time_tick: nearest tick, "
+                "offset, scaled or random) and a part resolution (PerformedPart.ppq / .mpq) equal to the export's in 55% of the parts; 150 (2000) more cases are "
+                "made by the library: a generated MIDI file (any tempo map, default_bpm) loaded with load_performance_midi or load_performance(first_note_at_zero=True), "
+                "possibly sliced (slice_ppart_by_time), moved or stretched in time, then exported with the resolution of the loaded parts (65%) or another pair.  "
+                "Notes that would overlap or touch another note of the same (file track, channel, pitch) at tick resolution are dropped (proviso of C06).  "
+                "(b) MIDI files: 1-4 tracks x 0-20 events, ppq from 7 values, default_bpm 120 (1/3) or one of 12 others, set_tempo events in no / the first / any / "
+                "only later tracks incl. repeated values and equal ticks, zero-velocity note-ons, stray note-offs, unclosed notes, notes touching at one tick, "
+                "pitch bends, nine kinds of meta events, end_of_track present or not, merge_tracks 30%, 35% neighbouring channels with extreme pitches.  "
+                "(d) Performance(...) of 1-4 parts with shared / non-contiguous / missing track numbers, half of them wrapped twice.  (e) load_performance on a "
+                "file against load_performance_midi with the same options, 60% with first_note_at_zero (70% of these with a lead-in).  (f) seconds_to_midi_ticks, "
+                "midi_ticks_to_seconds (Python / numpy scalars and arrays, single and double precision) and adjust_time on tick-ordered tempo lists, called directly.  "
+                "Non-trivial = (a) a case with >= 2 notes or a merge; (b) a file with a tempo change in a track other than the first "
+                "or >= 2 tempo changes; (d) >= 2 (part, track) pairs; (e) first_note_at_zero on >= 2 notes.")
     ctx.trusted = ["Coq 8.16.1 kernel incl. vm_compute", "harness/props/c06.py (generators, mido message printer, Python oracles)", "mido 1.3 (MidiFile, merge_tracks, file reader/writer)"]
     ctx.assumptions = [
         "times whose exact tick position is within 2^-20 of .5 without being on it (or whose float evaluation is inexact at a tie) are not generated into compared cases (counted)",
@@ -821,14 +1333,22 @@ def run(ctx):
         "controls, programs, signatures and meta events are compared as multisets per track (their list order is not named by C06); ids: distinct, and ordered by the number they end in",
         "of several set_tempo events at one tick the one read last (track order, then position) is taken to be in force",
         "seconds are compared with relative tolerance 1e-9 against exact rational arithmetic",
+        "the times of a performed part are its times in seconds: tick annotations an item carries (note_on_tick, note_off_tick, time_tick) and the part's own ppq / mpq "
+        "say nothing about where it has to be written",
+        "Performance(...): the notes, controls and programs of one (part, track) get one number and different pairs different numbers; which numbers is compared for "
+        "information only; a control / program without a track number may be put on any track",
+        "first_note_at_zero: notes and programs of the first part move by its earliest onset (programs not below 0); a control at or after it keeps number, channel, "
+        "track and moves along, its value is compared unless another control of its controller shares its time; additional controls only at time 0; other parts unchanged",
+        "default_bpm values are those whose microseconds per quarter are a whole number",
     ]
     ok, why = ctx.coq_props(expect_min=EXPECT_MIN)
     if not ok:
         ctx.log("coq_props failed: " + why[:1500])
+    ctx.log("proofs checked: %s" % ok)
     rng = ctx.rng
     quick = ctx.tier == "quick"
-    n_perf = 400 if quick else 8000
-    n_midi = 500 if quick else 10000
+    n_perf = 400 if quick else 6000
+    n_midi = 500 if quick else 8000
     imports = "From PV Require Import Lib.Base Model.C06."
     n_viol = 0
 
@@ -841,15 +1361,32 @@ def run(ctx):
             ctx.count("a:near_tie_case_skipped")
             continue
         perf_cases.append((c, "gen"))
+    n_hist = 150 if quick else 2000
+    tries = 0
+    while n_hist > 0 and tries < 20 * (150 if quick else 2000):
+        tries += 1
+        c = gen_history(rng, ctx.work)
+        if c is None or not make_exclusive(c):
+            ctx.count("a:history_case_skipped (loading / slicing raised, no note left, near-tie)")
+            continue
+        perf_cases.append((c, "hist"))
+        n_hist -= 1
     for case, src in perf_cases:
         if src == "corpus" and not make_exclusive(case):
             continue
         bad, extra = run_perf_case(case, ctx.work)
         ctx.evaluations += 1
         ctx.count("a:input=%s" % case["kind"])
+        ctx.count("a:scalar types=%s%s" % (case.get("num", "py"), ", notes through PerformedPart.from_note_array" if case.get("na") else ""))
         ctx.count("a:merge_save=%s,merge_load=%s" % (case["ms"], case["ml"]))
         if case.get("again"):
             ctx.count("a:second save->load leg")
+        if case.get("history"):
+            ctx.count("a:history=%s" % case["history"])
+            ctx.count("a:items carry ticks; part resolution %s the export's" % ("=" if any(
+                (p.get("ppq", 480), p.get("mpq", 500000)) == (case["ppq"], case["mpq"]) for p in case["parts"]) else "is not"))
+            if stale_at_export_resolution(case):
+                ctx.count("a:case with a stale tick annotation in a part that has the export's resolution")
         if bad:
             if n_viol < 5:
                 def still(sub_parts):
@@ -877,8 +1414,15 @@ def run(ctx):
         intern = Intern()
         save_terms.append(term_save(case, pps, mf, intern))
         save_cases.append(case)
+    ctx.log("(a) implementation runs done")
+    jobs = max(1, int(os.environ.get("VERIF_JOBS", "8")))
+
+    def shard_for(n, cap):
+        """one wave of parallel coqc runs when the cases fit"""
+        return max(20, min(cap, -(-n // jobs)))
+
     if ok:
-        failing = ctx.coq_failing("save", imports, "", save_terms, "check_save", shard=100)
+        failing = ctx.coq_failing("save", imports, pv_ty("(Z * Z * bool * list ppart * list (list (Z * msg)))%type"), typed(save_terms), "check_save", shard=shard_for(len(save_terms), 100))
         ctx.obligation("correspondence: per file track, the timed messages of save_performance_midi are (as a multiset) those of Model.C06.save "
                        "(nearest ticks, one tie rule per file; default programs optional, set_tempo mpq at tick 0) and the message loop pairs the "
                        "same notes from them, on %d performances" % len(save_terms), not failing, failing[:5])
@@ -886,12 +1430,14 @@ def run(ctx):
             ctx.violation("model and implementation disagree on the messages written by save_performance_midi (timed messages per track as a "
                           "multiset, or the notes they pair to)", {"kind": "perf-model", "case": save_cases[i]})
         try:  # information only: how many files are message for message what the model of today's code writes
-            inexact = ctx.coq_failing("save_exact", imports, "", save_terms, "check_save_exact", shard=100)
-            ctx.count("a:saved messages identical to Model.C06.save (order within a tick, tick of default programs)", len(save_terms) - len(inexact))
+            exact_terms = save_terms[:150 if quick else 1500]
+            inexact = ctx.coq_failing("save_exact", imports, pv_ty("(Z * Z * bool * list ppart * list (list (Z * msg)))%type"), typed(exact_terms), "check_save_exact", shard=shard_for(len(exact_terms), 100))
+            ctx.count("a:saved messages identical to Model.C06.save (order within a tick, tick of default programs)", len(exact_terms) - len(inexact))
             ctx.count("a:saved messages equal to the model only up to what C06 names", len(inexact))
         except Exception as e:
             ctx.log("check_save_exact not evaluated: %s" % str(e)[:300])
 
+    ctx.log("(a) done: %d performances compared" % len(save_terms))
     # ---- (b)
     load_terms, load_cases = [], []
     midi_cases = corpus_midi() + [gen_midi(rng) for _ in range(n_midi)]
@@ -916,14 +1462,103 @@ def run(ctx):
         load_terms.append(term_load(case, mf, obs, Intern()))
         load_cases.append(case)
     if ok:
-        failing = ctx.coq_failing("load", imports, "", load_terms, "check_load", shard=150)
+        failing = ctx.coq_failing("load", imports, pv_ty("(Z * Z * bool * list (list (Z * msg)) * list opart)%type"), typed(load_terms), "check_load", shard=shard_for(len(load_terms), 150))
         ctx.obligation("correspondence: Model.C06.load (+ adjust_time) = parts of load_performance_midi: notes (multiset; ticks exact, seconds 1e-9; "
                        "id order sorted by onset, pitch, offset, channel), controls, programs, signatures, meta events (multisets) on %d hand-built "
                        "MIDI files" % len(load_terms), not failing, failing[:5])
         for i in failing[:3]:
             ctx.violation("model and implementation disagree on load_performance_midi", {"kind": "midi-model", "case": load_cases[i]})
+    ctx.log("(b) done: %d files compared" % len(load_terms))
+    imports2 = "From PV Require Import Lib.Base Model.C06 Model.C06_perf."
+    # ---- (d) Performance(...) renumbering
+    san_terms, san_exact, san_cases = [], [], []
+    for _ in range(300 if quick else 6000):
+        case = gen_sanitize(rng)
+        bad, extra = run_sanitize_case(case)
+        ctx.evaluations += 1
+        npairs = len({(k, t) for k, p in enumerate(case["parts"]) for name in ("notes", "ctrls", "progs") for t in p[name]})
+        ctx.count("d:Performance(...) with %s (part, track) pairs" % ("1" if npairs == 1 else "2-3" if npairs <= 3 else ">= 4"))
+        if any(t is None for p in case["parts"] for name in ("ctrls", "progs") for t in p[name]):
+            ctx.count("d:a control / program without a track number")
+        if bad:
+            if n_viol < 10:
+                ctx.violation("C06 (Performance track numbers) fails on the implementation: " + "; ".join(bad[:2]), {"kind": "sanitize", "case": case, "failures": bad[:3]})
+            n_viol += 1
+            continue
+        if npairs >= 2:
+            ctx.nontrivial("d" + json.dumps(case, sort_keys=True))
+        san_terms.append(ctuple([c_ptracks(extra[2]), c_ptracks(extra[3])]))
+        san_exact.append(ctuple([c_ptracks(extra[0]), c_ptracks(extra[1])]))
+        san_cases.append(case)
+    if ok:
+        failing = ctx.coq_failing("sanitize", imports2, pv_ty("(list ptracks * list ptracks)%type"), typed(san_terms), "check_sanitize", shard=150)
+        ctx.obligation("correspondence: Performance.sanitize_track_numbers separates the notes, controls and programs exactly as Model.C06_perf.sanitize "
+                       "(two items get one number iff the model gives them one number) on %d performances" % len(san_terms), not failing, failing[:5])
+        for i in failing[:3]:
+            ctx.violation("model and implementation disagree on which items Performance(...) puts on one track", {"kind": "sanitize", "case": san_cases[i]})
+        try:
+            inexact = ctx.coq_failing("sanitize_exact", imports2, pv_ty("(list ptracks * list ptracks)%type"), typed(san_exact), "check_sanitize_exact", shard=150)
+            ctx.count("d:track numbers identical to Model.C06_perf.sanitize (numbered along the sorted (part, track) pairs)", len(san_terms) - len(inexact))
+            ctx.count("d:track numbers equal to the model only up to renaming", len(inexact))
+        except Exception as e:
+            ctx.log("check_sanitize_exact not evaluated: %s" % str(e)[:300])
+
+    ctx.log("(d) done")
+    # ---- (e) load_performance: dispatch, options, first_note_at_zero
+    sil_terms, sil_cases = [], []
+    for _ in range(120 if quick else 2400):
+        case = gen_dispatch(rng)
+        bad, extra = run_dispatch_case(case, ctx.work)
+        ctx.evaluations += 1
+        ctx.count("e:load_performance(file, first_note_at_zero=%s)" % case["fz"])
+        if bad:
+            if n_viol < 12:
+                small = shrink_midi(case, bad[0][:30], lambda d: run_dispatch_case(d, ctx.work))
+                b2, _ = run_dispatch_case(small, ctx.work)
+                ctx.violation("C06 (load_performance) fails on the implementation: " + "; ".join((b2 or bad)[:2]), {"kind": "dispatch", "case": small, "failures": (b2 or bad)[:3]})
+            n_viol += 1
+            continue
+        if extra:
+            ns, ps, ons, ops = extra
+            if len(ns) >= 2:
+                ctx.nontrivial("e" + json.dumps(case, sort_keys=True))
+            cqq = lambda l: clist([ctuple([core.cfloat_q(a), core.cfloat_q(b)]) for a, b in l])
+            sil_terms.append(ctuple([cqq(ns), clist([core.cfloat_q(t) for t in ps]), cqq(ons), clist([core.cfloat_q(t) for t in ops])]))
+            sil_cases.append(case)
+    if ok and sil_terms:
+        failing = ctx.coq_failing("silence", imports2, pv_ty("(list (Q * Q) * list Q * list (Q * Q) * list Q)%type"), typed(sil_terms), "check_silence", shard=60)
+        ctx.obligation("correspondence: notes and program changes after load_performance(first_note_at_zero=True) = Model.C06_perf.rs_notes / rs_times "
+                       "of the loaded ones (1e-9) on %d files" % len(sil_terms), not failing, failing[:5])
+        for i in failing[:3]:
+            ctx.violation("model and implementation disagree on remove_silence_from_performed_part (notes / programs)", {"kind": "dispatch", "case": sil_cases[i]})
+
+    ctx.log("(e) done")
+    # ---- (f) the conversion functions called directly
+    bad, conv_terms, adj_terms = run_converters(rng, 300 if quick else 6000)
+    ctx.evaluations += len(conv_terms) + len(adj_terms)
+    ctx.count("f:seconds_to_midi_ticks / midi_ticks_to_seconds calls compared", len(conv_terms))
+    ctx.count("f:adjust_time lists compared", len(adj_terms))
+    for text, rep in bad[:3]:
+        ctx.violation("C06 (tick <-> seconds conversion) fails on the implementation: " + text, rep)
+    if ok:
+        failing = ctx.coq_failing("conv", imports2, pv_ty("(Z * Z * Q * Z * Z * Q)%type"), typed(conv_terms), "check_conv", shard=150)
+        ctx.obligation("correspondence: seconds_to_midi_ticks = Model.C06.sec_to_tick_r 0 (exact), midi_ticks_to_seconds = Model.C12.tick_to_sec (1e-9), Python and "
+                       "numpy scalars and arrays, on %d calls" % len(conv_terms), not failing, failing[:5])
+        failing2 = ctx.coq_failing("adjust", imports2, pv_ty("(Z * list (Z * Z) * list (Z * Q))%type"), typed(adj_terms), "check_adjust", shard=150)
+        ctx.obligation("correspondence: importmidi.adjust_time = Model.C06.adjust_time (1e-9) on %d tick-ordered tempo lists" % len(adj_terms), not failing2, failing2[:5])
+        if (failing or failing2) and not bad:
+            ctx.violation("model and implementation disagree on seconds_to_midi_ticks / midi_ticks_to_seconds / adjust_time", {"kind": "conv-model", "failing": (failing + failing2)[:5]}, no_input=True)
     if not ok and not ctx.violations:
         ctx.violation("proof obligations of Props/C06.v no longer check: " + why, {"theorem_or_build": why}, no_input=True)
+
+
+def pv_ty(ty):
+    """the type of a case, so that every case term is checked against it (an empty list inside a term has no type of its own)"""
+    return "Definition pv_ty : Type := %s." % ty
+
+
+def typed(terms):
+    return ["(%s : pv_ty)" % t for t in terms]
 
 
 def tick_is_half(case, t):
@@ -960,10 +1595,12 @@ def shrink_perf(case, workdir, sig):
     return c
 
 
-def shrink_midi(case, sig):
+def shrink_midi(case, sig, runner=None):
+    runner = runner or run_midi_case
+
     def fails_with(d):
         try:
-            b, _ = run_midi_case(d)
+            b, _ = runner(d)
         except Exception:
             return False
         return bool(b) and b[0][:30] == sig
@@ -1002,4 +1639,30 @@ def replay(obj):
         if extra:
             print("loaded:", json.dumps(extra[1], indent=1, default=str)[:4000])
         print("oracle:", bad or "holds")
+    elif kind == "sanitize":
+        bad, extra = run_sanitize_case(r["case"])
+        print("(part, track) numbers before / after Performance(...):", extra and extra[:2])
+        print("oracle:", bad or "holds")
+    elif kind == "dispatch":
+        import tempfile
+        case = r["case"]
+        case["tracks"] = [[(d, tuple(s)) for d, s in tr] for tr in case["tracks"]]
+        with tempfile.TemporaryDirectory() as tmp:
+            bad, extra = run_dispatch_case(case, tmp)
+        print("notes / programs of the first part before and after:", extra)
+        print("oracle:", bad or "holds")
+    elif kind in ("conv", "adjust"):
+        import numpy as np
+        from partitura.utils.music import seconds_to_midi_ticks, midi_ticks_to_seconds
+        from partitura.io.importmidi import adjust_time
+        if kind == "conv":
+            t, k = r["t"], r["k"]
+            arg = {"float": t, "f4": np.float32(t), "f8": np.float64(t), "int": int(t),
+                   "array4": np.array([t, 0.0], dtype="f4"), "array8": np.array([t, 0.0], dtype="f8")}[r["tkind"]]
+            karg = {"int": k, "i4": np.int32(k), "i8": np.int64(k), "array4": np.array([k, 0], dtype="i4"), "array8": np.array([k, 0], dtype="i8")}[r["kkind"]]
+            print("seconds_to_midi_ticks:", seconds_to_midi_ticks(arg, mpq=r["mpq"], ppq=r["ppq"]), "nearest ticks:", tick_cands(r["ppq"], r["mpq"], t))
+            print("midi_ticks_to_seconds:", midi_ticks_to_seconds(karg, mpq=r["mpq"], ppq=r["ppq"]), "exact:", float(F(k) * r["mpq"] / (10 ** 6 * r["ppq"])))
+        else:
+            tc = [tuple(x) for x in r["tc"]]
+            print("adjust_time:", [(tk, adjust_time(tk, list(tc), r["ppq"])) for tk in r["ticks"]])
     return 0
